@@ -214,6 +214,8 @@ def _plain(x):
 def _plain_close(a, b, rel):
     if isinstance(a, tuple) and a and a[0] == "f" and isinstance(b, tuple) and b and b[0] == "f":
         fa, fb = float.fromhex(a[1]), float.fromhex(b[1])
+        if fa == fb:  # also infinities (the area of WholeShape)
+            return True
         return abs(fa - fb) <= rel * max(abs(fa), abs(fb), 1e-300)
     if isinstance(a, tuple) and isinstance(b, tuple):
         return len(a) == len(b) and all(_plain_close(x, y, rel) for x, y in zip(a, b))
